@@ -13,11 +13,13 @@ pub struct GraphOpts {
     pub io: bool,
     pub big_permille: usize,
     pub multi_project: bool,
+    /// stratification: force a wide (fan-in / fan-out beyond 2x the queue capacity) graph
+    pub force_wide: bool,
 }
 
 impl Default for GraphOpts {
     fn default() -> Self {
-        GraphOpts { max_n: 8, services: true, aggregates: true, io: true, big_permille: 0, multi_project: false }
+        GraphOpts { max_n: 8, services: true, aggregates: true, io: true, big_permille: 0, multi_project: false, force_wide: false }
     }
 }
 
@@ -31,8 +33,8 @@ pub fn gen_graph(rng: &mut Rng, o: &GraphOpts) -> Scenario {
         _ => rng.range(1, o.max_n),
     };
     let mut big = "";
-    if o.big_permille > 0 && rng.below(1000) < o.big_permille {
-        if rng.chance(50) {
+    if o.force_wide || (o.big_permille > 0 && rng.below(1000) < o.big_permille) {
+        if !o.force_wide && rng.chance(50) {
             family = 0;
             n = rng.range(40, 200);
             big = "deep-";
